@@ -1,4 +1,74 @@
+import Ucfg.Lemmas.Dict
 import Ucfg.Model.Normalize
+import Ucfg.Model.Reify
+/-
+  C05 — every input shape normalizes to the same canonical tree.
+-/
 namespace Ucfg.C05
-theorem placeholder : True := trivial
+open Ucfg
+
+/-- integers keep their numeric value through normalisation (positive ones are carried as uint64) -/
+theorem normValue_int (o : Opts) (i : Int) :
+    normValue o (.int i) = .ok (if i > 0 then .prim (.uint i.toNat) else .prim (.int i)) := by
+  unfold normValue; rfl
+
+/-- without variable expansion a string is stored verbatim, whatever it contains -/
+theorem normValue_str (o : Opts) (s : String) (h : o.varexp = false) :
+    normValue o (.str s) = .ok (.prim (.str s)) := by
+  unfold normValue; simp [normalizeString, h]
+
+/-- durations and regular expressions are normalised to their textual form -/
+theorem normValue_dur (o : Opts) (t : String) : normValue o (.dur t) = .ok (.prim (.str t)) := by
+  unfold normValue; rfl
+
+/-- Two definitions of one setting inside one input, neither nil and not both containers, are a
+duplicate — in either order. -/
+theorem combine_duplicate (o v : Val) (hv : v.isNilPrim = false) (ho : o.isNilPrim = false)
+    (hns : (o.isSub && v.isSub) = false) :
+    combineV (some o) v = Outcome.raise .duplicateKey := by
+  cases v with
+  | prim p =>
+    cases p with
+    | nil => simp [Val.isNilPrim] at hv
+    | _ => cases o with
+      | prim q => (cases q with
+        | nil => simp [Val.isNilPrim] at ho
+        | _ => unfold combineV; rfl)
+      | dyn i e => unfold combineV; rfl
+      | sub d a hd ha => unfold combineV; rfl
+  | dyn i e =>
+    cases o with
+    | prim q => (cases q with
+        | nil => simp [Val.isNilPrim] at ho
+        | _ => unfold combineV; rfl)
+    | dyn j f => unfold combineV; rfl
+    | sub d a hd ha => unfold combineV; rfl
+  | sub d2 a2 hd2 ha2 =>
+    cases o with
+    | prim q => (cases q with
+        | nil => simp [Val.isNilPrim] at ho
+        | _ => unfold combineV; rfl)
+    | dyn j f => unfold combineV; rfl
+    | sub d a hd ha => simp [Val.isSub] at hns
+
+/-- a nil definition next to a real one changes nothing, whichever comes first -/
+theorem combine_nil_right (old : Option Val) : combineV old Val.nilV = .ok none := by
+  unfold combineV; rfl
+
+theorem combine_nil_left (v : Val) (hv : v.isNilPrim = false) :
+    combineV (some Val.nilV) v = .ok (some (cpy v)) := by
+  cases v with
+  | prim p => (cases p with
+    | nil => simp [Val.isNilPrim] at hv
+    | _ => unfold combineV; rfl)
+  | dyn i e => unfold combineV; rfl
+  | sub d a hd ha => unfold combineV; rfl
+
+/-- the generic view of a primitive is the primitive -/
+theorem reify_prim (p : Prim) : reifyP (.prim p) = .ok p.toData := by
+  unfold reifyP; rfl
+
+/-! non-vacuity -/
+example : (Val.prim (.int 1)).isNilPrim = false := rfl
+
 end Ucfg.C05
